@@ -827,6 +827,10 @@ func faultsRun(args []string) int {
 			dist["outcome"]["slow-under-load"]++
 		}
 	}
+	stViol, stRuns := fqStaleTick(8)
+	viol = append(stViol, viol...)
+	evals += stRuns
+	dist["plan"]["stale-timer-tick"] = stRuns
 	if len(viol) > 40 {
 		viol = viol[:40]
 	}
